@@ -137,7 +137,7 @@ def parse_comp(s):
 
 def run(tier, seed, broken_proof=False):
     rng = random.Random(seed + 1919)
-    count = 70 if tier == "quick" else 700
+    count = 160 if tier == "quick" else 1000
     cases = []
     for i in range(count):
         n = rng.randrange(1, 5 if tier == "quick" else 6)
